@@ -190,7 +190,8 @@ class SchemaOp(Contract):
         cur().ghost["unique_case"] = how
         if how != "any":
             # the schema-level joint uniqueness constraints: none, one over two columns (unique=["a", "b"]), or several groups
-            u = {"none": None, "a+b": ListObj(["a", "b"]), "a+b|c": ListObj([ListObj(["a", "b"]), ListObj(["c"])])}[how]
+            u = {"none": None, "a+b": ListObj(["a", "b"]), "a+b|c": ListObj([ListObj(["a", "b"]), ListObj(["c"])]),
+                 "a+moved": ListObj(["a", "moved_to_the_index"])}[how]
             if u is not None:
                 u.pre = True
                 u.name = "self.unique"
@@ -209,15 +210,19 @@ class SchemaOp(Contract):
             return
         u = attr(result, "_unique")
         got = None if u is None else ([list(x) if isinstance(x, (list, tuple)) else x for x in list(u)])
-        groups0 = [["a", "b"]] if how == "a+b" else [["a", "b"], ["c"]]
-        nested = how != "a+b"
+        # "a+moved": one of the names is not (any longer) a column of the receiver - the state set_index(drop=True) leaves, and what
+        # a constraint over the frame columns a regex column matches looks like: an operation on OTHER columns leaves it alone
+        groups0 = {"a+b": [["a", "b"]], "a+b|c": [["a", "b"], ["c"]], "a+moved": [["a", "moved_to_the_index"]]}[how]
+        nested = how == "a+b|c"
         norm = (lambda g: [] if g is None else ([list(x) for x in g] if nested else [list(g)]))
         if rename:
             out["schema.unique_follows_the_renamed_columns"] = norm(got) == [[rename.get(n, n) for n in g] for g in groups0]
         else:
             flat = [y for g in norm(got) for y in g]
-            out["schema.unique_names_only_columns_the_result_declares"] = all(y in remaining for y in flat)
-            out["schema.unique_constraints_whose_columns_stay_are_kept"] = all(g in norm(got) for g in groups0 if all(c in remaining for c in g))
+            gone = [c for c in self.labels if c not in remaining]  # the receiver's columns the result does not declare
+            out["schema.unique_names_only_columns_the_result_declares"] = all(y not in gone for y in flat)
+            # "properties not named by the operation are equal": a constraint is dropped only because one of ITS columns goes
+            out["schema.unique_constraints_whose_columns_stay_are_kept"] = all(g in norm(got) for g in groups0 if not any(c in gone for c in g))
 
     # -- common postconditions
     def common(self, out, result, self_, expected, index="same", rc=None):
@@ -285,7 +290,7 @@ class RemoveColumns(SchemaOp):
     if column not in schema'.  Mirrors DataFrame.drop(columns=...): the remaining columns keep order and content."""
 
     target = f"{DFS}.remove_columns"
-    split = {"backend": SchemaOp.backend_split, "req": list(range(len(REMOVE_REQUESTS))), "unique": ["none", "a+b", "a+b|c"]}
+    split = {"backend": SchemaOp.backend_split, "req": list(range(len(REMOVE_REQUESTS))), "unique": ["none", "a+b", "a+b|c", "a+moved"]}
 
     def make_args(self):
         req = ListObj(REMOVE_REQUESTS[self.arg("req", T.Any)])
@@ -317,7 +322,7 @@ class SelectColumns(SchemaOp):
     SchemaInitError if column not in the schema'; 'If an index is present in the schema, it will also be included'."""
 
     target = f"{DFS}.select_columns"
-    split = {"backend": SchemaOp.backend_split, "req": list(range(len(SELECT_REQUESTS))), "unique": ["none", "a+b", "a+b|c"]}
+    split = {"backend": SchemaOp.backend_split, "req": list(range(len(SELECT_REQUESTS))), "unique": ["none", "a+b", "a+b|c", "a+moved"]}
 
     def make_args(self):
         req = ListObj(SELECT_REQUESTS[self.arg("req", T.Any)])
@@ -354,7 +359,7 @@ class RenameColumns(SchemaOp):
     column onto an existing other column, cannot be represented by a schema: it must raise, not lose a column."""
 
     target = f"{DFS}.rename_columns"
-    split = {"backend": SchemaOp.backend_split, "req": list(range(len(RENAME_REQUESTS))), "unique": ["none", "a+b", "a+b|c"]}
+    split = {"backend": SchemaOp.backend_split, "req": list(range(len(RENAME_REQUESTS))), "unique": ["none", "a+b", "a+b|c", "a+moved"]}
 
     def make_args(self):
         req = DictObj(RENAME_REQUESTS[self.arg("req", T.Any)])
